@@ -57,10 +57,16 @@ def template(ctx: Ctx, f: FuncInfo, e: Optional[ast.AST], _depth: int = 0) -> Op
             elif p:
                 out.append(("lit", p))
         return merge(out) if i == len(args) else None
-    if isinstance(e, ast.Call) and isinstance(e.func, ast.Attribute) and e.func.attr == "format" and \
-            ctx.vals.const(f, e.func.value) is not None and isinstance(ctx.vals.const(f, e.func.value).value, str) and all(k.arg is not None for k in e.keywords):
+    tmpl_ = None
+    if isinstance(e, ast.Call) and isinstance(e.func, ast.Attribute) and e.func.attr == "format" and all(k.arg is not None for k in e.keywords):
+        c_ = ctx.vals.const(f, e.func.value)
+        if c_ is not None and isinstance(c_.value, str):
+            tmpl_ = c_.value
+        elif isinstance(e.func.value, ast.Attribute):
+            tmpl_ = _class_const(ctx, f, e.func.value)  # self._TEMPLATE.format(...)
+    if tmpl_ is not None:
         # "{}-{}".format(a, b) / "{0}-{1}".format(a, b) / "{pool}_Task-{task_id}".format(pool=self, task_id=task_id)
-        pieces = re.split(r"(\{[A-Za-z_0-9]*\})", ctx.vals.const(f, e.func.value).value)
+        pieces = re.split(r"(\{[A-Za-z_0-9]*\})", tmpl_)
         kws = {k.arg: k.value for k in e.keywords}
         out, i = [], 0
         for p in pieces:
